@@ -56,13 +56,30 @@ def canon_atom(src, pol):
     return canon(e), pol
 
 
+_NUMERIC_WORDS = {'pos', 'start', 'end', 'offset', 'level', 'size', 'index', 'line', 'column', 'count', 'base', 'field', 'value_start', 'value_end',
+                  'name_start', 'name_end', 'i', 'l', 'n', 'length', 'parent', 'nested', 'priority', 'repeat_guard', 'body_start', 'body_end'}
+
+
+def _numeric(e):
+    """is this sum integer arithmetic (then its terms commute)?  Sums of lists / strings keep the order of their operands."""
+    for n in ast.walk(e):
+        if isinstance(n, ast.Constant) and isinstance(n.value, int) and not isinstance(n.value, bool):
+            return True
+        if isinstance(n, ast.Call) and isinstance(n.func, ast.Name) and n.func.id in ('len', 'int', 'ord', 'min', 'max', 'abs'):
+            return True
+    leaves = [n for n in ast.walk(e) if isinstance(n, (ast.Name, ast.Attribute))]
+    words = {(n.attr if isinstance(n, ast.Attribute) else n.id) for n in leaves}
+    words = {w.split('_', 2)[-1] if w.startswith(('_acc_', '_fin_')) else w for w in words}
+    return bool(words & _NUMERIC_WORDS) and not any(isinstance(n, (ast.List, ast.Tuple)) for n in ast.walk(e))
+
+
 class _Canon(ast.NodeTransformer):
     def visit_BinOp(self, node):
         parts = strparts(node)
         if parts is not None and len(parts) > 1 and any(isinstance(x, str) for x in parts):
             txt = 'S[' + ' '.join(repr(x) if isinstance(x, str) else '{%s}' % canon(ast.parse(x[1], mode='eval').body) for x in parts) + ']'
             return ast.Name(id=txt, ctx=ast.Load())
-        if isinstance(node.op, (ast.Add, ast.Sub)):
+        if isinstance(node.op, (ast.Add, ast.Sub)) and _numeric(node):
             lin = linear(node)
             if lin is not None:
                 return ast.Name(id='L[%s]' % show(lin), ctx=ast.Load())
@@ -154,7 +171,7 @@ def _loop_text(q, n, r):
             carried = sorted({x.id for st in n.body for x in ast.walk(st) if isinstance(x, ast.Name) and isinstance(x.ctx, ast.Store)})
             env = {}
             for k, v in q.env.items():
-                env[k] = v
+                env[k] = q.resolve(v)          # spelled over the inputs (outer snapshots / calls written out)
             for c in carried:
                 env[c] = ast.Name(id='_acc_' + c, ctx=ast.Load())
             stmts = list(n.body)
@@ -169,7 +186,7 @@ def _loop_text(q, n, r):
             parts = []
             for c in cs:
                 tail = _env_suffix(c, carried) if c.exit in ('end', 'continue', 'break') else ''
-                o = c.outcome() if c.exit not in ('continue', 'break') else ' ; '.join(list(_sorted_stores(c.effects)) + [c.exit])
+                o = c.outcome() if c.exit not in ('continue', 'break', 'end') else ' ; '.join(list(_sorted_stores(c.effects)) + ['next' if c.exit != 'break' else 'break'])
                 parts.append('%s -> %s%s' % (c.cond_str(), o, (' || ' + tail) if tail else ''))
             btxt = '{ ' + ' | '.join(sorted(parts)) + ' }'
         except sympath.Unsupported:
@@ -181,7 +198,14 @@ def _loop_text(q, n, r):
     if isinstance(n, ast.While):
         return 'loop while %s do %s' % (_test_text(n.test, lambda e: src_of(e)) if btxt == 'pass' or not btxt.startswith('{') else '..', btxt)
     if isinstance(n, ast.For):
-        return 'loop for each of %s do %s' % (r(n.iter), btxt)
+        it = n.iter
+        try:
+            import copy as _copy
+            from .shape import _Sub
+            it = _Sub({k: q.resolve(v) for k, v in q.env.items()}, 1).visit(_copy.deepcopy(n.iter))
+        except Exception:
+            pass
+        return 'loop for each of %s do %s' % (r(it), btxt)
     return 'block ' + type(n).__name__
 
 
@@ -481,7 +505,12 @@ def _table_rows(project, func, **kw):
         r = []
         for c in cs:
             tail = tails.get((label, id(c)), '') if c.exit in ('end', 'continue', 'break') else ''
-            o = c.outcome() if c.exit not in ('continue', 'break') else ' ; '.join(list(_sorted_stores(c.effects)) + [c.exit])
+            if label.startswith('iter') and c.exit in ('continue', 'end'):
+                o = ' ; '.join(list(_sorted_stores(c.effects)) + ['next'])         # falling off the body and `continue` both start the next iteration
+            elif c.exit in ('continue', 'break'):
+                o = ' ; '.join(list(_sorted_stores(c.effects)) + [c.exit])
+            else:
+                o = c.outcome()
             conds = {alpha(k): v for k, v in c.conds.items()}
             r.append((conds, alpha(o + (' || ' + tail if tail else ''))))
         rows.append((label, r))
@@ -489,31 +518,32 @@ def _table_rows(project, func, **kw):
 
 
 def check_rows(have, want):
-    """compare two row lists of one segment -> ('ok', n) | ('differs', [(want conds, want outcome, have conds, have outcome)]) | ('unknown', why)"""
+    """compare the rows of one segment with the reviewed ones
+       -> ('ok', n) | ('differs', [(want conds, want outcome, have conds, have outcome)]) | ('unknown', why)
+    Both tables partition the same space of atom assignments.  A path of the analysed tree and a reviewed row that are
+    consistent (no atom assumed both ways) describe at least one common assignment, so their outcomes must agree; this is
+    only concluded when the analysed path tests nothing outside the reviewed vocabulary (a new atom may be an equivalent
+    spelling of an old one, so nothing is concluded then)."""
     vocab = set()
     for conds, _ in want:
         vocab |= set(conds)
     hv = set()
     for conds, _ in have:
         hv |= set(conds)
-    differs = []
-    covered = set()
-    for wc, wo in want:
-        for i, (hc, ho) in enumerate(have):
-            if all(hc.get(k, v) == v for k, v in wc.items()) and all(wc.get(k, v) == v for k, v in hc.items() if k in vocab):
-                if not set(hc) <= vocab and not all(k in hc for k in wc):
-                    continue
-                covered.add(i)
-                if ho != wo and all(k in hc for k in wc):
-                    differs.append((wc, wo, hc, ho))
     if hv - vocab:
         return 'unknown', 'tests outside the reviewed vocabulary: %s' % sorted(hv - vocab)[:4]
+    differs = []
+    for hc, ho in have:
+        cons = [(wc, wo) for wc, wo in want if all(hc.get(k, v) == v for k, v in wc.items())]
+        if not cons:
+            return 'unknown', 'path outside the reviewed cases: %s' % hc
+        for wc, wo in cons:
+            if wo != ho:
+                differs.append((wc, wo, hc, ho))
+                break
     if differs:
         return 'differs', differs
-    if len(covered) != len(have):
-        return 'unknown', 'paths outside the reviewed cases'
-    # every reviewed row must be realised
     for wc, wo in want:
-        if not any(all(hc.get(k, v) == v for k, v in wc.items()) and ho == wo for hc, ho in have):
-            return 'unknown', 'reviewed case not found: %s -> %s' % (wc, wo)
+        if not any(all(hc.get(k, v) == v for k, v in wc.items()) for hc, ho in have):
+            return 'unknown', 'reviewed case not realised: %s -> %s' % (wc, wo)
     return 'ok', len(have)
